@@ -267,6 +267,57 @@ def _index_loops(node):
     return node
 
 
+def _hoist_nested_accumulators(node):
+    """`d = {..., 'k': {}}` ... `d['k'][x] = v` / `d['k'].append(v)`  ->  `d__k_acc = {}`; `d = {..., 'k': d__k_acc}` ...
+    `d__k_acc[x] = v`: a collection filled through the entry of the dictionary that holds it is the collection filled
+    under a name of its own (the same object either way), which is the form the image rules read."""
+    pm = A.parent_map(node)
+    uses = {}
+    for x in A.walk_body(node):
+        if isinstance(x, ast.Name):
+            uses.setdefault(x.id, []).append(x)
+
+    def empty(v):
+        return _is_empty_dict(v) or (isinstance(v, (ast.List, ast.Dict)) and not (v.elts if isinstance(v, ast.List) else v.keys)) or \
+            (isinstance(v, ast.Call) and isinstance(v.func, ast.Name) and v.func.id in ("list", "dict") and not v.args and not v.keywords)
+
+    for name, occ in uses.items():
+        inits = [pm.get(x) for x in occ if isinstance(pm.get(x), ast.Assign) and len(pm.get(x).targets) == 1 and pm.get(x).targets[0] is x]
+        if len(inits) != 1 or sum(1 for x in occ if isinstance(x.ctx, ast.Store)) != 1 or not isinstance(inits[0].value, ast.Dict):
+            continue
+        init = inits[0]
+        for i, (k, v) in enumerate(zip(init.value.keys, init.value.values)):
+            key = A.const_str(k) if k is not None else None
+            if key is None or not empty(v):
+                continue
+            refs = [pm.get(x) for x in occ if isinstance(pm.get(x), ast.Subscript) and pm.get(x).value is x and A.const_str(pm.get(x).slice) == key]
+            if not refs or any(not isinstance(r.ctx, ast.Load) for r in refs):
+                continue
+            # filled through the entry: d['k'][..] = .. / d['k'].method(..)
+            filled = [r for r in refs if (isinstance(pm.get(r), ast.Subscript) and pm.get(r).value is r and isinstance(pm.get(r).ctx, ast.Store)) or
+                      (isinstance(pm.get(r), ast.Attribute) and pm.get(r).value is r and isinstance(pm.get(pm.get(r)), ast.Call) and pm.get(pm.get(r)).func is pm.get(r))]
+            if not filled:
+                continue
+            acc = "%s__%s_acc" % (name, re.sub(r"\W", "_", key))
+            if acc in uses:
+                continue
+            refset = {id(r) for r in refs}
+
+            class R(ast.NodeTransformer):
+                def visit_Subscript(self, n):
+                    if id(n) in refset:
+                        return ast.copy_location(ast.Name(id=acc, ctx=ast.Load()), n)
+                    return self.generic_visit(n)
+
+            first = ast.fix_missing_locations(ast.copy_location(ast.Assign(targets=[ast.Name(id=acc, ctx=ast.Store())], value=v, type_comment=None), init))
+            init.value.values[i] = ast.copy_location(ast.Name(id=acc, ctx=ast.Load()), v)
+            PM._rewrite_blocks(node, lambda st: [first, st] if st is init else [st])
+            R().visit(node)
+            ast.fix_missing_locations(node)
+            return _hoist_nested_accumulators(node)  # tables are stale: start over for a further one
+    return node
+
+
 def _plain(ck, fi):
     memo = ck.__dict__.setdefault("_c18_plain", {})
     key = (fi.qual, id(fi.node))
@@ -274,6 +325,7 @@ def _plain(ck, fi):
         node = copy.deepcopy(fi.node)
         try:
             PM._rewrite_blocks(node, _plain_stmt(fi.module, _literal_dicts(node)))
+            node = _hoist_nested_accumulators(node)
             node = _scalarise(node)
             node = _index_loops(node)
             changed = ast.dump(node) != ast.dump(fi.node)
